@@ -9,6 +9,7 @@ suite = "--suite" in sys.argv
 env = dict(os.environ, GOFLAGS="-mod=mod", GOPROXY="off", GOSUMDB="off", GOTOOLCHAIN="local")
 muts = [json.loads(l) for l in open(f"{V}/mutants/mutants.jsonl") if l.strip() and not l.startswith("#")]
 results = []
+sigs_by = {}
 for i, m in enumerate(muts):
     if args and not any(a in m["name"] or a == m["property"] for a in args):
         continue
@@ -32,10 +33,16 @@ for i, m in enumerate(muts):
         if not caught:
             print(r.stdout[-1500:], r.stderr[-1500:])
         results.append((m["name"], caught, suite_ok))
+        sigs_by[m["name"]] = (m["property"], sigs[:3])
     finally:
         shutil.rmtree(S, ignore_errors=True)
         for d in os.listdir(f"{V}/build"):
             pass
+# keep a record of the last full run (read by scripts/detection.py)
+if not args:
+    rec = {"repo_head": subprocess.run(["git", "-C", "/repo", "rev-parse", "--short", "HEAD"], capture_output=True, text=True).stdout.strip(),
+           "results": [{"name": n, "property": sigs_by[n][0], "caught": c, "suite": s, "signatures": sigs_by[n][1]} for n, c, s in results]}
+    json.dump(rec, open(f"{V}/mutants/results.json", "w"), indent=1)
 bad = [n for n, c, s in results if not c]
 print(f"{len(results)-len(bad)}/{len(results)} caught")
 sys.exit(1 if bad else 0)
